@@ -1157,6 +1157,13 @@ func selectReverseStrategy(n *nfa.NFA, re *syntax.Regexp, literals *literal.Seq,
 		}
 	}
 
+	// The remaining reverse strategies search with a reverse NFA, in which every
+	// look-around assertion is an epsilon transition: `(?m)(^)/.*\.php` would match
+	// "/x.php" in the middle of a line. Only patterns without assertions qualify.
+	if hasAnchorAssertions(re) {
+		return 0
+	}
+
 	// Check if prefix literals would produce a fast forward prefilter.
 	// If so, skip reverse optimizations (the overhead is not worth it).
 	//
